@@ -171,6 +171,11 @@ def run(ctx):
     cases = []
     lens = [0, 1, 2, 126, 127, 128, 129, 255, 256, 257, 65535, 65536, 65537] + ([2**24 - 1, 2**24] if ctx.thorough else [])
     blobs = [make_blob(rng, n) for n in lens for _ in range(2)] + [make_blob(rng) for _ in range(400 if ctx.thorough else 60)]
+    # contents that are THEMSELVES complete DER values (an OCTET STRING, a SEQUENCE, a context-tagged value): carried as opaque octets
+    import dataclasses as _dc
+    for inner in (b"\x04\x00", b"\x04\x10" + bytes(range(16)), b"\x04\x81\x80" + bytes(128), b"\x04\x82\x01\x00" + bytes(256), b"\x30\x03\x02\x01\x00", b"\xa0\x02\x04\x00",
+                  b"\x24\x04\x04\x02ab", b"\x80\x01\x00"):
+        blobs.append(_dc.replace(make_blob(rng, 0), enc_content=inner))
     emitted = []
     for b in blobs:
         for in_env in (True, False):
